@@ -11,6 +11,7 @@ import json
 import os
 
 TWIN = os.environ.get('VERIF_TWIN') == '1'
+REPO = os.environ.get('VERIF_REPO') or '/repo'     # the tree under check (a scratch copy when trying seeded changes)
 PARAM = json.loads(os.environ.get('VERIF_PARAM') or '{}')
 REPLAY = json.loads(os.environ['VERIF_REPLAY']) if os.environ.get('VERIF_REPLAY') else None
 
